@@ -289,6 +289,23 @@ func VerifC14Forwarded() {
 			req.Header[h] = []string{pre[h]}
 		}
 	}
+	// the client may name one of these headers in Connection: what it sent under that name is
+	// then hop-by-hop and goes, and the proxy's own value is still added afterwards
+	named := map[string]bool{}
+	switch vf.Choice("connection-names-forwarded", 3) {
+	case 1:
+		req.Header["Connection"] = []string{"close, x-forwarded-for"}
+		named["X-Forwarded-For"] = true
+	case 2:
+		req.Header["Connection"] = []string{"X-Forwarded-Url", "x-forwarded-proto"}
+		named["X-Forwarded-Url"], named["X-Forwarded-Proto"] = true, true
+	}
+	if named["X-Forwarded-For"] {
+		xff = nil
+	}
+	for h := range named {
+		delete(pre, h)
+	}
 	vf.Assert(outer.ModifyRequest(req) == nil, "forwarded:no-error")
 	got := zzsplitList(req.Header["X-Forwarded-For"])
 	want := append(zzsplitList(xff), hosts[k])
